@@ -6,6 +6,8 @@ import (
 	"time"
 
 	sdk "github.com/cosmos/cosmos-sdk/types"
+	authtypes "github.com/cosmos/cosmos-sdk/x/auth/types"
+	govtypes "github.com/cosmos/cosmos-sdk/x/gov/types"
 
 	oracletypes "github.com/ExocoreNetwork/exocore/x/oracle/types"
 )
@@ -158,5 +160,50 @@ func (h *c12H) directed() []c12Script {
 			}},
 			{}, {}, {}, {}, {}, {}, {}, {}, {}, {}, {}, {}, {}, {}, {}, {}, {}, {}, {},
 		}})
+	// (6) Params.Validate's rule "EndBlock not inside a round window" is relative to StartBaseBlock. Feeder 1 starts at 13
+	// (not a multiple of the interval 10); MsgUpdateParams proposes EndBlock 33 = 13 + 2*10, exactly the base block of
+	// round 3: it must be refused (and then the successor proposed later must be refused too, the feeder is still
+	// running). If both were accepted the successor's StartRoundID (Validate's own continuity formula) counts a round that
+	// never opened and the token's numbering is one ahead of the store for good. Recorded with the params the chain has.
+	p6 := c12Params{MaxNonce: 3, ThrA: 2, ThrB: 3, MaxDetID: 5, MaxSize: 100, TokenDec: []int32{0, 8},
+		Feeders: []c12Feeder{{ID: 1, Token: 1, Start: 13, Interval: 10, StartRound: 1}}}
+	p6a := p6
+	p6a.Feeders = []c12Feeder{{ID: 1, Token: 1, Start: 13, Interval: 10, StartRound: 1, End: 33}}
+	p6b := p6
+	p6b.Feeders = []c12Feeder{{ID: 1, Token: 1, Start: 13, Interval: 10, StartRound: 1, End: 33}, {ID: 2, Token: 1, Start: 36, Interval: 10, StartRound: 4}}
+	acc1, acc2 := false, false
+	upd := func(ctx sdk.Context, tf *oracletypes.TokenFeeder) bool {
+		msg := &oracletypes.MsgUpdateParams{Authority: authtypes.NewModuleAddress(govtypes.ModuleName).String(),
+			Params: oracletypes.Params{TokenFeeders: []*oracletypes.TokenFeeder{tf}}}
+		cctx, write := ctx.CacheContext()
+		if _, err := h.env.App.MsgServiceRouter().Handler(msg)(cctx, msg); err != nil {
+			return false
+		}
+		write()
+		return true
+	}
+	blocks6 := make([]c12ScriptBlock, 34) // blocks 12..45
+	blocks6[0] = c12ScriptBlock{updates: eq3}
+	blocks6[8] = c12ScriptBlock{pre: func(ctx sdk.Context) { // block 20
+		acc1 = upd(ctx, &oracletypes.TokenFeeder{TokenID: 1, EndBlock: 33})
+		if acc1 {
+			h.w.Count("directed.end-on-boundary=accepted")
+		} else {
+			h.w.Count("directed.end-on-boundary=rejected")
+		}
+	}}
+	blocks6[22] = c12ScriptBlock{pre: func(ctx sdk.Context) { // block 34
+		acc2 = upd(ctx, &oracletypes.TokenFeeder{TokenID: 1, RuleID: 1, StartRoundID: 4, StartBaseBlock: 36, Interval: 10})
+	}}
+	out = append(out, c12Script{tags: []string{"dir-C12-validate-end-block-relative-to-start"}, params: &p6, h0: 12, nb: 34,
+		paramsAfter: func() c12Params {
+			switch {
+			case acc1 && acc2:
+				return p6b
+			case acc1:
+				return p6a
+			}
+			return p6
+		}, blocks: blocks6})
 	return out
 }
